@@ -7,6 +7,7 @@
 import PySpikeVerif.Model.Api
 import PySpikeVerif.Proofs.Basic
 import Mathlib.Data.List.Basic
+import PySpikeVerif.Proofs.FilterLaws
 
 namespace PySpike.C17
 open PySpike
@@ -63,5 +64,55 @@ theorem test_antitone (c thr1 thr2 n : Q) (hn : 0 ≤ n) (h : thr1 ≤ thr2) (hk
 
 example : (filterBySync { recon := false } (1/2) [⟨[1, 5], 0, 10⟩, ⟨[2, 8], 0, 10⟩]).1 =
     [⟨[1], 0, 10⟩, ⟨[2], 0, 10⟩] := by decide +kernel
+
+/-! ### from Proofs/FilterLaws.lean (work package B6) -/
+
+/-- the coincidence count of spike `k` of train `i` = number of OTHER trains with which it is
+    coincident (sum of the per-pair indicators `coincSingle`), hence between 0 and N-1 -/
+theorem count_is_number_of_coincident_trains (kw : Kw) (L : List Train) (i k : Nat) :
+    (coincCounts kw L i).getD k 0
+      = (((List.range L.length).filter (· ≠ i)).map fun j =>
+          (coincSingle (tr L i).spikes (tr L j).spikes (tr L i).ts (tr L i).te
+            kw.maxTau kw.mrts).getD k 0).sum := coincCounts_eq_sum kw L i k
+theorem count_bounds (kw : Kw) (L : List Train) (i : Nat) :
+    ∀ c ∈ coincCounts kw L i, 0 ≤ c ∧ c ≤ (L.length : Q) - 1 := B6_coincCounts_bounds kw L i
+
+/-- **keep rule**: spike `k` of (strictly sorted) train `i` is in the kept train iff its count is
+    strictly greater than `threshold·(N-1)` -/
+theorem keep_iff (kw : Kw) (thr : Q) (L : List Train) (hr : kw.recon = false)
+    (i : Nat) (hi : i < L.length) (hs : StrictSorted (tr L i).spikes) (k : Nat)
+    (hk : k < (tr L i).spikes.length) :
+    (tr L i).spikes[k] ∈ (tr (filterBySync kw thr L).1 i).spikes ↔
+      (coincCounts kw L i).getD k 0 > thr * ((L.length : Q) - 1) :=
+  filter_keep_iff kw thr L hr i hi hs k hk
+
+/-- **partition**: kept and removed spikes are sub-sequences of the input train in the original
+    order, together a permutation of it, on the original interval; one output train per input -/
+theorem kept_removed_partition (kw : Kw) (thr : Q) (L : List Train) (hr : kw.recon = false)
+    (i : Nat) (hi : i < L.length) :
+    (tr (filterBySync kw thr L).1 i).spikes.Sublist (tr L i).spikes ∧
+    (tr (filterBySync kw thr L).2 i).spikes.Sublist (tr L i).spikes ∧
+    (tr (filterBySync kw thr L).1 i).spikes.length + (tr (filterBySync kw thr L).2 i).spikes.length
+      = (tr L i).spikes.length ∧
+    ((tr (filterBySync kw thr L).1 i).spikes ++ (tr (filterBySync kw thr L).2 i).spikes).Perm
+      (tr L i).spikes ∧
+    (tr (filterBySync kw thr L).1 i).ts = (tr L i).ts ∧
+    (tr (filterBySync kw thr L).1 i).te = (tr L i).te ∧
+    (tr (filterBySync kw thr L).2 i).ts = (tr L i).ts ∧
+    (tr (filterBySync kw thr L).2 i).te = (tr L i).te ∧
+    (filterBySync kw thr L).1.length = L.length ∧ (filterBySync kw thr L).2.length = L.length :=
+  filter_partition kw thr L hr i hi
+
+/-- **monotone**: a higher threshold never keeps more spikes -/
+theorem higher_threshold_keeps_less (kw : Kw) (thr1 thr2 : Q) (L : List Train) (hr : kw.recon = false)
+    (h12 : thr1 ≤ thr2) (i : Nat) (hi : i < L.length) :
+    (tr (filterBySync kw thr2 L).1 i).spikes.Sublist (tr (filterBySync kw thr1 L).1 i).spikes :=
+  filter_antitone_thr kw thr1 thr2 L hr h12 i hi
+
+/-- threshold 1 (or more) keeps nothing: the fraction can never be strictly greater than 1 -/
+theorem threshold_one_keeps_nothing (kw : Kw) (thr : Q) (L : List Train) (hr : kw.recon = false)
+    (h1 : 1 ≤ thr) (i : Nat) (hi : i < L.length) :
+    (tr (filterBySync kw thr L).1 i).spikes = [] ∧
+    (tr (filterBySync kw thr L).2 i).spikes = (tr L i).spikes := filter_thr_one_none kw thr L hr h1 i hi
 
 end PySpike.C17
